@@ -210,6 +210,9 @@ func genSSOWorld(t *rapid.T, o worldOpts) world.Spec {
 		}
 		sp.ACS = genACSList(t, i, o.minACS, o.maxACS, o.bindings, o.oddLocations)
 		sp.WantAssertionsSigned = rapid.SampledFrom([]string{"", "", "", "true", "false", "0", "1"}).Draw(t, "wantassertionssigned")
+		// caching hints of the metadata document, in the past too: what the storage holds as registered is registered
+		sp.ValidUntil = rapid.SampledFrom([]string{"", "", "", "", "@future", "@past", "role:@past", "2001-01-01T00:00:00Z", "not a date"}).Draw(t, "validuntil")
+		sp.CacheDuration = rapid.SampledFrom([]string{"", "", "", "PT1H", "PT0S"}).Draw(t, "cacheduration")
 		if o.signingFlags {
 			sp.AuthnRequestsSigned = rapid.SampledFrom([]string{A, A, "false", "0", "true", "1"}).Draw(t, "spsigned")
 			if rapid.IntRange(0, 5).Draw(t, "nocert") == 0 {
